@@ -10,17 +10,17 @@ def run(chk):
     chk.mc("MC_Percolation", "MC_Percolation.cfg", required=["Decide", "Eval"])
     rng = _r.Random(chk.seed)
     traces = []
-    for tau in range(2, 7 if thorough else 6):
+    for tau in range(2, 7):
         traces.append(P.run_clique(tau))
-    for n in range(3, 10 if thorough else 8):
+    for n in range(3, 11 if thorough else 10):
         traces.append(P.run_cycle(n))
-    for n in range(1, 7 if thorough else 6):
+    for n in range(1, 7):
         for k in range(0, n * (n - 1) // 2 + 1):
             traces.append(P.run_count(n, k, with_qq=n >= 2))
-    for n in range(1, 13 if thorough else 10):
+    for n in range(1, 13):
         for k in range(0, n * (n - 1) // 2 + 1):
             traces.append(P.run_countmod(n, k))
-    chk.exhaustive["Q and QQ against brute force for all n <= %d, all k; Q modulo five primes for all n <= %d, all k" % (6 if thorough else 5, 12 if thorough else 9)] = True
+    chk.exhaustive["Q and QQ against brute force for all n <= 6, all k; Q modulo five primes for all n <= 12, all k"] = True
     # connected-subgraph counter: every graph on <= 4 vertices, every vertex subset containing the focal vertex, every k
     for n in (2, 3, 4):
         V = list(range(n))
@@ -35,11 +35,33 @@ def run(chk):
     for i in range(400 if thorough else 60):
         n = rng.choice([5, 6])
         V = list(range(n))
-        E = [list(e) for e in itertools.combinations(V, 2) if rng.random() < 0.6]
+        E = [list(e) for e in itertools.combinations(V, 2) if rng.random() < rng.choice([0.35, 0.6, 0.8])]
         A = rng.sample(V, rng.randrange(2, n + 1))
         ind = [e for e in E if e[0] in A and e[1] in A]
         if len(ind) <= 9:
             traces.append(P.run_ncg({"V": V, "E": E, "A": sorted(A), "focal": rng.choice(A), "k": rng.randrange(0, len(ind) + 1)}))
+    # structured substrates with narrow cuts (edge connectivity below the minimum degree): two dense blobs joined by few edges
+    def blobs(a, b, bridges):
+        A = list(range(a)); B = list(range(a, a + b))
+        E = [list(e) for e in itertools.combinations(A, 2)] + [list(e) for e in itertools.combinations(B, 2)]
+        E += [[A[i % a], B[i % b]] for i in range(bridges)]
+        return A + B, E
+    for a, b, br in ((3, 3, 1), (3, 3, 2), (4, 3, 1), (4, 4, 1), (4, 4, 2), (3, 4, 2), (5, 3, 1)) if not thorough else \
+            ((3, 3, 1), (3, 3, 2), (4, 3, 1), (4, 4, 1), (4, 4, 2), (3, 4, 2), (5, 3, 1), (5, 4, 1), (4, 4, 3), (5, 3, 2)):
+        V, E = blobs(a, b, br)
+        if len(E) > 14:
+            continue
+        for k in range(0, len(E) + 1):
+            traces.append(P.run_ncg({"V": V, "E": E, "A": V, "focal": V[0], "k": k}))
+        sub = V[:-1]                                  # and with one vertex of the second blob left out of the subset
+        ind = [e for e in E if e[0] in sub and e[1] in sub]
+        for k in range(0, len(ind) + 1):
+            traces.append(P.run_ncg({"V": V, "E": E, "A": sub, "focal": sub[-1], "k": k}))
+    for n in (6, 7, 8):                                # cycles with a chord, paths of triangles
+        V = list(range(n))
+        E = [[i, (i + 1) % n] for i in range(n)] + [[0, n // 2]]
+        for k in range(0, len(E) + 1):
+            traces.append(P.run_ncg({"V": V, "E": E, "A": V, "focal": 1, "k": k}))
     chk.add_sample(traces[3]); chk.add_sample(next((t for t in traces if t["kind"] == "countmod" and t["n"] == 9), traces[0]))
     P.judge(chk, traces, "C16")
     chk.nontrivial = len({str(t["case"]) for t in traces})
